@@ -121,25 +121,33 @@ func r13_1(c *RC) {
 				return
 			}
 			// predicate closure: seq <= nextRecv ; plus a seq < nextRecv -> continue guard
+			isSeq := func(v ssa.Value) bool {
+				for _, l := range Leaves(v, nil) {
+					if ex, ok := l.(*ssa.Extract); ok {
+						if call, ok := ex.Tuple.(*ssa.Call); ok && strings.HasSuffix(calleeID(call), "segment).Seq") {
+							return true
+						}
+					}
+				}
+				return false
+			}
+			// the predicate: seq <= nextRecv, in any equivalent spelling
 			predOK := false
 			if cf, _ := closureOf(del.Common().Args[1]); cf != nil {
 				instrs(cf, func(_ *ssa.BasicBlock, _ int, x ssa.Instruction) {
-					if bo, ok := x.(*ssa.BinOp); ok && bo.Op == token.LEQ {
+					if r, ok := x.(*ssa.Return); ok && len(r.Results) == 1 && cmpForm(retVal(r, 0), token.LEQ, isSeq, nil) {
 						predOK = true
 					}
 				})
 			}
+			// the Add happens only where seq >= nextRecv is known (older
+			// segments are skipped), in any equivalent spelling
 			skipOK := false
-			instrs(fn, func(_ *ssa.BasicBlock, _ int, x ssa.Instruction) {
-				if iff, ok := x.(*ssa.If); ok {
-					if bo, ok := iff.Cond.(*ssa.BinOp); ok && bo.Op == token.LSS && instrDominates(x, in) {
-						// false edge must lead to the Add
-						if !blockReach(iff.Block().Succs[0], func(from *ssa.BasicBlock, i int) bool { return false })[in.Block()] || iff.Block().Succs[1].Dominates(in.Block()) {
-							skipOK = true
-						}
-					}
+			for _, ce := range controlConds(fn, in.Block()) {
+				if (ce.Idx == 0 && cmpForm(ce.If.Cond, token.GEQ, isSeq, nil)) || (ce.Idx == 1 && cmpForm(ce.If.Cond, token.LSS, isSeq, nil)) {
+					skipOK = true
 				}
-			})
+			}
 			if predOK && skipOK {
 				c.OKH(key, in.Pos(), "Add(1) on the success edge of recvQueue.Insert(seg), seg = recvBuf.DeleteMinIf(seq <= nextRecv), and seq < nextRecv is skipped first (so seq == nextRecv)")
 			} else {
@@ -196,7 +204,7 @@ func r13_3(c *RC) {
 		key := "sendBuf." + name + "@" + fnName(s.Fn)
 		switch name {
 		case "DeleteAll":
-			if s.Fn.Name() == "closeWithError" {
+			if ownerName(p, s.Fn) == "closeWithError" {
 				c.OK(key, s.Pos(), "wholesale discard at close")
 			} else {
 				c.Bad(key, s.Pos(), "sendBuf.DeleteAll outside closeWithError: unacknowledged data would be forgotten")
@@ -214,7 +222,17 @@ func r13_3(c *RC) {
 			good := false
 			instrs(cf, func(_ *ssa.BasicBlock, _ int, x ssa.Instruction) {
 				bo, ok := x.(*ssa.BinOp)
-				if !ok || bo.Op != token.LSS {
+				if !ok {
+					return
+				}
+				// seq < unAckSeq may be spelled unAckSeq > seq
+				switch bo.Op {
+				case token.LSS:
+				case token.GTR:
+					sw := *bo
+					sw.X, sw.Y, sw.Op = bo.Y, bo.X, token.LSS
+					bo = &sw
+				default:
 					return
 				}
 				lhsSeq := false
